@@ -445,19 +445,17 @@ func (a Float) M__bool__() (Object, error) {
 }
 
 func (a Float) M__int__() (Object, error) {
-	if a >= IntMin && a <= IntMax {
+	const twoTo63 = 1 << 63 // IntMax + 1: IntMax itself is not a float
+	switch {
+	case math.IsNaN(float64(a)):
+		return nil, ExceptionNewf(ValueError, "cannot convert float NaN to integer")
+	case math.IsInf(float64(a), 0):
+		return nil, ExceptionNewf(OverflowError, "cannot convert float infinity to integer")
+	case a >= -twoTo63 && a < twoTo63:
 		return Int(a), nil
 	}
-	frac, exp := math.Frexp(float64(a))              // x = frac << exp; 0.5 <= abs(x) < 1
-	fracInt := int64(frac * (1 << float64precision)) // x = frac << (exp - float64precision)
-	res := big.NewInt(fracInt)
-	shift := exp - float64precision
-	switch {
-	case shift > 0:
-		res.Lsh(res, uint(shift))
-	case shift < 0:
-		res.Rsh(res, uint(-shift))
-	}
+	// Truncates towards zero, but a float this big is an integer already
+	res, _ := big.NewFloat(float64(a)).Int(nil)
 	return (*BigInt)(res), nil
 }
 
